@@ -54,12 +54,19 @@ func vNoDup(a []string) bool {
 }
 
 // vTwoIDs: two symbolic IDs; with case mix = 1 the second one is one level finer on both axes
-// (mixed precision inside one list).
+// (mixed precision inside one list), with mix = 2 on the horizontal axis only (same vertical
+// zoom), with mix = 3 on the vertical axis only (same horizontal zoom).
 func vTwoIDs(h, v int64) (string, string) {
 	var id [2]string
 	mix := vCase("mix")
 	for i := int64(0); i < 2; i++ {
-		hh, vv := h+i*mix, v+i*mix
+		hh, vv := h, v
+		if mix == 1 || mix == 2 {
+			hh = h + i
+		}
+		if mix == 1 || mix == 3 {
+			vv = v + i
+		}
 		x, y, f := vNondetInt64(vN("x", i)), vNondetInt64(vN("y", i)), vNondetInt64(vN("f", i))
 		vAssume(0 <= x && x < int64(1)<<uint(hh) && 0 <= y && y < int64(1)<<uint(hh))
 		vAssume(-(int64(1)<<uint(vv)) <= f && f < int64(1)<<uint(vv))
